@@ -19,7 +19,11 @@ RULE = ("All 136 (k, n) pairs with 1 <= k <= n <= 16, 16- and 32-byte secrets, s
         "33-word shares and sampled double/triple substitutions; share sets mixing ids, exponents, thresholds, "
         "counts, lengths, duplicated and out-of-range indices, two-level (member threshold > 1) sets; Feistel with "
         "exponents 0..2 through real PBKDF2 for a few cases and through a one-hash stub KDF (installed on both "
-        "sides) for the bulk.")
+        "sides) for the bulk. Deepening round: ShareSet.digest, the attributes set by ShareSet.__init__ (salt), decrypt through a "
+        "ShareSet object, _crypt with arbitrary round lists, parse-then-encode on accepted texts of standard and non-standard "
+        "lengths, split_secret with its random draws and digest fixed (split_with), share mnemonics of two generate_shares calls "
+        "mixed at recover_mnemonic, text-level corruptions (other word in full / as prefix, junk, case), and for every (k, n) the "
+        "secrecy replay: k-1 observed shares re-obtained from the library's split of another secret.")
 TRUSTED = ["hashlib/hmac (sha256, hmac-sha256, pbkdf2_hmac): universally quantified functions in the theorems; in "
            "the extracted model pbkdf2_hmac is RFC 8018 PBKDF2 (Spec/Pbkdf2S.v) over the HMAC oracle",
            "harness/gen_coq.py copies the word-list files into coq/Generated/Wordlists.v"]
@@ -114,7 +118,59 @@ def i_recover_shares_fast(fl, pw):
         return ShareSet([Share(*f) for f in fl]).recover(pw)
 
 
+def i_shareset_fields(fl):
+    ss = ShareSet([Share(*f) for f in fl])
+    return [ss.id, ss.salt, ss.exponent, ss.group_threshold, ss.group_count, ss.share_bit_length, len(ss.shares)]
+
+
+def i_decrypt_ss_fast(fl, p, pw):
+    with patched(fast=True):
+        return ShareSet([Share(*f) for f in fl]).decrypt(p, pw)
+
+
+def i_crypt_fast(p, ident, e, pw, idxs):
+    with patched(fast=True):
+        return ShareSet._crypt(p, ident, e, pw, tuple(bytes([i]) for i in idxs))
+
+
+class fixed_digest:
+    """ShareSet.digest replaced by a constant (the first four bytes of a chosen digest share)"""
+
+    def __init__(self, d4):
+        self.d4 = d4
+
+    def __enter__(self):
+        self.old = ShareSet.__dict__["digest"]
+        d4 = self.d4
+        ShareSet.digest = classmethod(lambda cls, random, shared_secret: d4)
+
+    def __exit__(self, *a):
+        ShareSet.digest = self.old
+
+
+def split_with_impl(sd, ds, secret, k, n):
+    """ShareSet.split_secret with its random draws replaced by the strings sd (shares 0..k-3) and
+    ds[4:], and the digest by ds[:4]: the deterministic tail of split_secret"""
+    nb = len(secret)
+    if not (2 <= k <= n <= 16 and nb in (16, 32) and len(ds) == nb and [i for i, _ in sd] == list(range(k - 2))
+            and all(len(b) == nb for _, b in sd)):
+        raise ValueError("outside the domain of split_with")
+    stream = ds[4:] + b"".join(b for _, b in sd)
+    r = Rnd(0, stream)
+    with patched(r), fixed_digest(ds[:4]):
+        out = ShareSet.split_secret(secret, k, n)
+    if r.pos != len(stream):
+        raise AssertionError("split_secret did not consume the random stream as modelled")
+    return [[i, b] for i, b in out]
+
+
 IMPL = {
+    "digest": lambda r, sec: ShareSet.digest(r, sec),
+    "shareset_fields": i_shareset_fields,
+    "decrypt_ss_fast": i_decrypt_ss_fast,
+    "crypt_fast": i_crypt_fast,
+    "share_reencode": lambda t: Share.parse(_txt(t)).mnemonic(),
+    "split_with": lambda sd, ds, secret, k, n: split_with_impl([(a, b) for a, b in sd], ds, secret, k, n),
     "rs1024_polymod": lambda l: shamir.rs1024_polymod(l),
     "rs1024_create": lambda cs, l: shamir.rs1024_create_checksum(cs, l),
     "rs1024_verify": lambda cs, l: shamir.rs1024_verify_checksum(cs, l),
@@ -146,11 +202,17 @@ def gf_mul(a, b):
     return r
 
 
+_INV = {}
+
+
 def gf_inv(a):
-    r = 1
-    for _ in range(254):
-        r = gf_mul(r, a)
-    return r
+    """a^254 by repeated carry-less multiplication (independent of the library's tables), memoised"""
+    if a not in _INV:
+        r = 1
+        for _ in range(254):
+            r = gf_mul(r, a)
+        _INV[a] = r
+    return _INV[a]
 
 
 def ref_interp(x, pts):
@@ -313,7 +375,7 @@ def p_share_rt(f):
     s = Share(*f)
     m = s.mnemonic()
     ws = m.split(" ")
-    want = 20 if f[0] == 128 else 33
+    want = 7 + -(-f[0] // 10)          # 4 header words, ceil(bits / 10) value words, 3 checksum words
     if len(ws) != want or any(w not in SLI for w in ws):
         return f"share mnemonic has {len(ws)} words, expected {want}"
     idx = [SLI[w] for w in ws]
@@ -360,6 +422,10 @@ def p_feistel(p, ident, e, pw, fast):
         back = ShareSet([Share(128, ident, e, 0, 1, 1, 0, 1, 0)]).decrypt(c, pw)
     if back != p:
         return "decrypt(encrypt(p)) != p"
+    with patched(fast=bool(fast)):
+        d = ShareSet([Share(128, ident, e, 0, 1, 1, 0, 1, 0)]).decrypt(p, pw)
+        if ShareSet.encrypt(d, ident, e, pw) != p:
+            return "encrypt(decrypt(c)) != c"
     if not fast:
         # independent Feistel with hashlib
         half = len(p) // 2
@@ -399,7 +465,127 @@ def p_two_level(secret, gt, gc, groups, rnd, take):
     return None
 
 
-PROPS = {"recover_repeat": p_recover_repeat, "gf": p_gf, "split_recover": p_split_recover, "pipeline": p_pipeline, "mixed": p_mixed,
+def p_mixed_pipeline(ent1, ent2, k1, n1, k2, n2, e1, e2, id1, id2, rnd1, rnd2, take1, take2):
+    """share mnemonics of two generate_shares calls that differ in id, exponent, k, n or length are never
+    combined by recover_mnemonic; the shares of each call alone are"""
+    m1 = mnemonic.bytes_to_mnemonic(ent1, len(ent1) * 8)
+    m2 = mnemonic.bytes_to_mnemonic(ent2, len(ent2) * 8)
+    with patched(Rnd(id1, rnd1), True):
+        a = ShareSet.generate_shares(m1, k1, n1, b"", e1)
+    with patched(Rnd(id2, rnd2), True):
+        b = ShareSet.generate_shares(m2, k2, n2, b"", e2)
+    differ = (id1, e1, k1, n1, len(ent1)) != (id2, e2, k2, n2, len(ent2))
+    mix = [a[i % n1] for i in take1] + [b[i % n2] for i in take2]
+    if not take1 or not take2 or not differ:
+        return None
+    with patched(fast=True):
+        for order in (mix, mix[::-1]):
+            try:
+                got = ShareSet.recover_mnemonic(order, b"")
+            except Exception:
+                continue
+            return f"shares of two different splits were combined into {got!r}"
+        if ShareSet.recover_mnemonic(a[:k1], b"") != m1 or ShareSet.recover_mnemonic(b[:k2], b"") != m2:
+            return "the shares of one call alone do not recover its mnemonic"
+    return None
+
+
+def p_subst_text(f, poss, kinds, news):
+    """1..3 words replaced by another word (full or 4-letter prefix), by junk or by another case are rejected;
+    words replaced by their OWN 4-letter prefix are not a corruption: same share"""
+    s0 = Share(*f)
+    ws = s0.mnemonic().split(" ")
+    bad, own = list(ws), list(ws)
+    for p, kd, w in zip(poss, kinds, news):
+        p %= len(ws)
+        other = SL[w] if SL[w] != ws[p] and SL[w][:4] != ws[p][:4] else SL[(w + 1) % 1024]
+        bad[p] = [other, other[:4], "zz", ws[p].upper(), ws[p] + "x"][kd % 5]
+        own[p] = ws[p][:4]
+    diff = sum(1 for a, b in zip(ws, bad) if a != b)
+    if not 1 <= diff <= 3:
+        return None
+    if not _raises(Share.parse, " ".join(bad)):
+        return f"{diff}-word text corruption accepted: {bad}"
+    t = Share.parse("  ".join(own))
+    if sfields(t) != sfields(s0) or t.bytes != s0.bytes:
+        return "prefix spelling of the same words parsed to a different share"
+    return None
+
+
+def p_canonical(idx, prefix_mask):
+    """every text Share.parse accepts has at least 20 words and at most 8 padding bits, and re-encodes to the
+    same words spelled in full (every accepted length, empty padding included: ddaa02c)"""
+    ws = [SL[i][:4] if (prefix_mask >> j) & 1 else SL[i] for j, i in enumerate(idx)]
+    try:
+        s0 = Share.parse(" ".join(ws))
+    except Exception:
+        return None
+    w = len(idx) - 7
+    if len(idx) < 20 or (10 * w) % 16 > 8:
+        return f"Share.parse accepted {len(idx)} words ({(10 * w) % 16} padding bits)"
+    if s0.share_bit_length != 10 * w // 16 * 16:
+        return "share_bit_length is not 10 * value words rounded down to a multiple of 16"
+    back = s0.mnemonic()
+    if back != " ".join(SL[i] for i in idx):
+        return "mnemonic(parse(m)) is not m spelled in full words"
+    t = Share.parse(back)
+    if sfields(t) != sfields(s0) or t.bytes != s0.bytes:
+        return "parse(mnemonic(parse(m))) differs from parse(m)"
+    return None
+
+
+def p_secrecy(secret, k, n, rnd, sub, secret2):
+    """fewer than k shares are consistent with every other secret: recompute (independently of the library's
+    tables) the random strings and digest share for which secret2 gives the same shares at the indices `sub`,
+    and let the LIBRARY split secret2 with them"""
+    nb = len(secret)
+    with patched(Rnd(0, rnd)):
+        data = ShareSet.split_secret(secret, k, n)
+    sub = sorted(set(i % n for i in sub))[: k - 1]
+    # complete to exactly k-1 observed indices
+    for i in range(n):
+        if len(sub) >= k - 1:
+            break
+        if i not in sub:
+            sub.append(i)
+    obs = [data[i] for i in sub]
+    q = [(i, b) for i, b in obs] + [(255, secret2)]
+    ds2 = ref_interp(254, q)
+    held = dict(obs)
+    sd2 = [(i, held[i] if i in held else ref_interp(i, q)) for i in range(k - 2)]
+    other = split_with_impl(sd2, ds2, secret2, k, n)
+    for i, b in obs:
+        if other[i] != [i, b]:
+            return f"share {i} of the alternative split of another secret differs from the observed share"
+    if secret2 != secret and all(other[i] == [i, data[i][1]] for i in range(n)):
+        return "the alternative split coincides in all n shares although the secrets differ"
+    return None
+
+
+def p_other_lengths(secret, ident, e, pw):
+    """160/192/224-bit secrets (BIP39 mnemonics of 15/18/21 words): generate_shares and split_secret refuse them
+    (only 128/256 bits are split), but a 1-of-1 share of such a length built through the public pieces
+    (encrypt, Share, mnemonic) is parsed and recovered by recover_mnemonic to the BIP39 mnemonic of the secret"""
+    nb = len(secret)
+    m = mnemonic.bytes_to_mnemonic(secret, nb * 8)
+    if not _raises(ShareSet.generate_shares, m, 1, 1) or not _raises(ShareSet.split_secret, secret, 1, 1):
+        return f"a {nb * 8}-bit secret was split"
+    with patched(fast=True):
+        enc = ShareSet.encrypt(secret, ident, e, pw)
+        sh = Share(nb * 8, ident, e, 0, 1, 1, 0, 1, int.from_bytes(enc, "big"))
+        txt = sh.mnemonic()
+        if len(txt.split(" ")) != 7 + -(-nb * 8 // 10):
+            return f"{nb * 8}-bit share mnemonic has {len(txt.split(' '))} words"
+        back = Share.parse(txt)
+        if sfields(back) != sfields(sh) or back.bytes != enc:
+            return "parse(mnemonic(share)) differs from the share"
+        if ShareSet.recover_mnemonic([txt], pw) != m:
+            return "recover_mnemonic of the 1-of-1 share is not the BIP39 mnemonic of the secret"
+    return None
+
+
+PROPS = {"other_lengths": p_other_lengths, "mixed_pipeline": p_mixed_pipeline, "subst_text": p_subst_text, "canonical": p_canonical, "secrecy": p_secrecy,
+         "recover_repeat": p_recover_repeat, "gf": p_gf, "split_recover": p_split_recover, "pipeline": p_pipeline, "mixed": p_mixed,
          "share_rt": p_share_rt, "subst1_all": p_subst1_all, "subst_multi": p_subst_multi, "feistel": p_feistel,
          "two_level": p_two_level}
 
@@ -458,6 +644,10 @@ def generate(ctx):
             bad = list(full)
             bad[r.randrange(len(bad))] ^= 1 << r.randrange(10)
             yield ("corr", "rs1024_verify", [cs, bad])
+    # --- ShareSet.digest (HMAC-SHA256 truncated to 4 bytes)
+    for _ in range(ctx.n(12, 200)):
+        ctx.label("digest")
+        yield ("corr", "digest", [ctx.rbytes(r.choice([0, 12, 28, 64, 65, 130])), ctx.rbytes(r.choice([0, 16, 32, 33]))])
     # --- share codec: in-range headers incl. every boundary, then out-of-range constructions
     shares = []
     for i in range(ctx.n(150, 6000)):
@@ -508,6 +698,79 @@ def generate(ctx):
             ctx.label("parse/substituted")
         ctx.label(f"parse/len={'20' if len(ws) == 20 else '33' if len(ws) == 33 else 'other'}")
         yield ("corr", "share_parse", [" ".join(ws).encode()])
+        yield ("corr", "share_reencode", [" ".join(ws).encode()])
+    # converse round trip: accepted 20-/33-word texts (zero padding, any accepted spelling) re-encode to themselves;
+    # other lengths: accepted only with at most 8 (zero) padding bits (ec24589), then re-encoded to themselves
+    for i in range(ctx.n(120, 1600)):
+        f = rfields(ctx, edge=(i % 4 == 0))
+        idx = [SLI[w] for w in Share(*f).mnemonic().split(" ")]
+        nw = len(idx)
+        kind = i % 4
+        if kind == 0:
+            ctx.label("canonical/generated-share")
+        elif kind == 1:
+            # the same data words with the checksum of another customisation string / a flipped data word
+            data = idx[:-3]
+            data[r.randrange(4, len(data))] ^= 1 << r.randrange(10)
+            idx = data + shamir.rs1024_create_checksum(b"shamir", data)
+            ctx.label("canonical/recomputed-checksum")
+        elif kind == 2:
+            # arbitrary header words (may violate K <= N), valid checksum
+            data = [r.randrange(1024) for _ in range(4)] + idx[4:-3]
+            idx = data + shamir.rs1024_create_checksum(b"shamir", data)
+            ctx.label("canonical/random-header")
+        else:
+            # k extra zero words in front of the value: 21..23 (34..36) words — a longer share or too much padding
+            extra = r.choice([1, 1, 2, 3])
+            if idx[4] < (256 if nw == 20 else 16):
+                data = idx[:4] + [0] * extra + idx[4:-3]
+                idx = data + shamir.rs1024_create_checksum(b"shamir", data)
+                ctx.label(f"canonical/non-standard-length-{len(idx)}-words")
+        mask = r.getrandbits(len(idx)) if r.random() < 0.5 else 0
+        yield ("prop", "canonical", [idx, mask])
+        ws = [SL[j][:4] if (mask >> t) & 1 else SL[j] for t, j in enumerate(idx)]
+        yield ("corr", "share_reencode", [" ".join(ws).encode()])
+        yield ("corr", "share_parse", [" ".join(ws).encode()])
+    # every SLIP39 share length from 128 to 320 bits: codec both ways (23 words for 160 bits since ddaa02c)
+    for bits in range(128, 321, 16):
+        for j in range(ctx.n(3, 40)):
+            f = rfields(ctx, bits=bits, edge=(j % 2 == 0))
+            ctx.label(f"share/length-sweep/{bits}-bit")
+            yield ("prop", "share_rt", [f])
+            yield ("corr", "share_mnemonic", [f])
+            txt = Share(*f).mnemonic()
+            yield ("corr", "share_parse", [txt.encode()])
+            yield ("corr", "share_reencode", [txt.encode()])
+            yield ("prop", "canonical", [[SLI[w] for w in txt.split(" ")], r.getrandbits(8)])
+    # 160/192/224-bit secrets end to end as far as the API goes (1-of-1 share through encrypt/Share/recover_mnemonic)
+    for nb in (20, 24, 28):
+        for j in range(ctx.n(2, 30)):
+            secret, ident, e, pw = ctx.rbytes(nb), r.getrandbits(15), r.choice([0, 1]), r.choice(PASS)
+            ctx.label(f"other-lengths/{nb * 8}-bit-secret")
+            yield ("prop", "other_lengths", [secret, ident, e, pw])
+            with patched(fast=True):
+                enc = ShareSet.encrypt(secret, ident, e, pw)
+            txt = Share(nb * 8, ident, e, 0, 1, 1, 0, 1, int.from_bytes(enc, "big")).mnemonic()
+            yield ("corr", "recover_mnemonic_fast", [[txt.encode()], pw])
+            yield ("corr", "recover_shares_fast", [[[nb * 8, ident, e, 0, 1, 1, 0, 1, int.from_bytes(enc, "big")]], pw])
+    # the witnesses of C15_share_parse_rejects_21 (21 words with 12 zero padding bits: rejected since ec24589; they
+    # parsed to the share of the 20 words) and of C15_share_mnemonic_160_ok (23 words = 160 bits, what Share.mnemonic emits since ddaa02c)
+    ctx.label("canonical/witnesses-21-20-23-words")
+    for wit in ([38, 577, 0, 0, 0, 1, 141, 86, 482, 427, 823, 752, 72, 837, 414, 154, 755, 495, 350, 791, 577],
+                [38, 577, 0, 0, 1, 141, 86, 482, 427, 823, 752, 72, 837, 414, 154, 755, 495, 645, 54, 170],
+                [38, 577, 0, 0] + [1023] * 15 + [1019, 879, 513, 281]):
+        yield ("prop", "canonical", [wit, 0])
+        yield ("corr", "share_parse", [" ".join(SL[j] for j in wit).encode()])
+        yield ("corr", "share_reencode", [" ".join(SL[j] for j in wit).encode()])
+    # every number of words from 18 to 40 with zero padding and a valid checksum: accepted exactly for the lengths of
+    # C15_share_parse_lengths
+    for nw in range(18, 41):
+        data = [r.randrange(1024) for _ in range(2)] + [0, 0] + [0, 0] + [r.randrange(1024) for _ in range(nw - 9)]
+        idx = data + shamir.rs1024_create_checksum(b"shamir", data)
+        ctx.label(f"canonical/length-sweep/{'accepted' if nw >= 20 and (10 * (nw - 7)) % 16 <= 8 else 'rejected'}")
+        yield ("prop", "canonical", [idx, 0])
+        yield ("corr", "share_parse", [" ".join(SL[j] for j in idx).encode()])
+        yield ("corr", "share_reencode", [" ".join(SL[j] for j in idx).encode()])
     # corruption: every single-word substitution of sampled shares, sampled double/triple
     for j, f in enumerate(shares[: ctx.n(4, 60)]):
         nw = 20 if f[0] == 128 else 33
@@ -521,6 +784,9 @@ def generate(ctx):
             news = [r.randrange(1024) for _ in range(cnt)]
             ctx.label(f"substitution/{cnt}-word")
             yield ("prop", "subst_multi", [f, poss, news])
+            if not thorough or r.random() < 0.2:
+                ctx.label("substitution/text-level(prefix,junk,case)")
+                yield ("prop", "subst_text", [f, poss, [r.randrange(5) for _ in range(cnt)], news])
             if r.random() < 0.2:
                 bad = list(ws)
                 for p, w in zip(poss, news):
@@ -541,6 +807,16 @@ def generate(ctx):
                 yield ("prop", "split_recover", [secret, k, n, rnd, subs])
                 data = i_split_secret(secret, k, n, rnd)
                 if k > 1:
+                    random = rnd[:nb - 4]
+                    ds = hmac.new(random, secret, "sha256").digest()[:4] + random
+                    sd = [[i, rnd[nb - 4 + i * nb: nb - 4 + (i + 1) * nb]] for i in range(k - 2)]
+                    ctx.label("split_with")
+                    yield ("corr", "split_with", [sd, ds, secret, k, n])
+                    yield ("corr", "split_with", [sd, ctx.rbytes(nb), ctx.rbytes(nb), k, n])
+                    for sub in subs[: ctx.n(2, 4)]:
+                        ctx.label("secrecy/k-1-shares-consistent-with-another-secret")
+                        yield ("prop", "secrecy", [secret, k, n, rnd, list(sub), r.choice([ctx.rbytes(nb), bytes(nb), secret])])
+                if k > 1:
                     for sub in subs[: ctx.n(6, 40)] if not exhaustive else r.sample(subs, min(len(subs), ctx.n(6, 60))):
                         pts = [data[i] for i in sub]
                         ctx.label("recover_secret/>=k" if len(sub) >= k else "recover_secret/<k")
@@ -552,6 +828,10 @@ def generate(ctx):
                        (-1, 3, 16), (3, 3, 20)]:
         ctx.label("split/bad-arguments")
         yield ("corr", "split_secret", [ctx.rbytes(nb), k, n, ctx.rbytes(600)])
+    for (k, n, nb, dl, sdx) in [(1, 3, 16, 16, []), (2, 1, 16, 16, []), (2, 17, 16, 16, []), (3, 4, 16, 16, []), (3, 4, 16, 16, [1]),
+                                (2, 3, 20, 20, []), (2, 3, 16, 15, []), (3, 4, 32, 32, [0]), (4, 5, 16, 16, [0, 1])]:
+        ctx.label("split_with/domain-guard")
+        yield ("corr", "split_with", [[[i, ctx.rbytes(nb if (k, nb) != (4, 16) else 15)] for i in sdx], ctx.rbytes(dl), ctx.rbytes(nb), k, n])
     # interpolate on malformed point lists: empty, repeated x, x equal to a share x, unequal lengths, big x
     for _ in range(ctx.n(80, 3000)):
         m = r.randrange(0, 6)
@@ -570,6 +850,9 @@ def generate(ctx):
         ctx.label("feistel/stub-kdf")
         yield ("corr", "encrypt_fast", [p, ident, e, pw])
         yield ("corr", "decrypt_fast", [p, ident, e, pw])
+        ctx.label("feistel/_crypt-any-round-list")
+        yield ("corr", "crypt_fast", [p, ident, e, pw, r.choice([b"\x00\x01\x02\x03", b"\x03\x02\x01\x00", b"", b"\x05", b"\x00\x00",
+                                                                ctx.rbytes(r.randrange(0, 7))])])
         if len(p) % 2 == 0 and 2 <= len(p) <= 64 and 0 <= ident < 65536 and 0 <= e <= 20:
             yield ("prop", "feistel", [p, ident, e, pw, 1])
     for i, e in enumerate([0, 0] + ([1, 2, 0, 1, 2, 0] if thorough else [])):
@@ -628,6 +911,34 @@ def generate(ctx):
         ctx.label("recover/repeated-calls-on-one-object")
         yield ("prop", "recover_repeat", [ctx.rbytes(nb), k, n, b"right", b"typo" + bytes([65 + i % 26]),
                                           r.getrandbits(15), ctx.rbytes(rnd_need(nb, k))])
+    # --- two generate_shares calls, share mnemonics mixed at the recover_mnemonic level
+    for i in range(ctx.n(40, 500)):
+        nb1 = r.choice([16, 32])
+        n1 = r.randrange(1, 7)
+        k1 = r.randrange(1, n1 + 1)
+        what = i % 6
+        nb2, n2, k2, e1, e2 = nb1, n1, k1, r.choice([0, 1]), None
+        id1 = r.getrandbits(15)
+        id2 = id1
+        e2 = e1
+        if what == 0:
+            id2 = id1 ^ (1 + r.getrandbits(14))
+        elif what == 1:
+            e2 = e1 + 1
+        elif what == 2:
+            k2 = r.choice([x for x in range(1, n1 + 1) if x != k1] or [k1])
+        elif what == 3:
+            n2 = n1 + 1
+        elif what == 4:
+            nb2 = 48 - nb1
+        else:
+            id2, n2, k2 = r.getrandbits(15), r.randrange(1, 7), None
+            k2 = r.randrange(1, n2 + 1)
+        ctx.label(f"mixed-pipeline/{['id', 'exponent', 'threshold', 'count', 'length', 'all'][what]}")
+        yield ("prop", "mixed_pipeline", [ctx.rbytes(nb1), ctx.rbytes(nb2), k1, n1, k2, n2, e1, e2, id1, id2,
+                                          ctx.rbytes(rnd_need(nb1, k1)), ctx.rbytes(rnd_need(nb2, k2)),
+                                          [r.randrange(n1) for _ in range(r.randrange(1, n1 + 1))],
+                                          [r.randrange(n2) for _ in range(r.randrange(1, n2 + 1))]])
     # --- consistency checks of ShareSet.__init__/recover: mixed splits, duplicates, bad group index
     for i in range(ctx.n(60, 2000)):
         nb = r.choice([16, 32])
@@ -666,6 +977,13 @@ def generate(ctx):
         else:
             ctx.label("shareset/consistent")
         yield ("corr", "recover_shares_fast", [fl, b"pw"])
+        yield ("corr", "shareset_fields", [fl])
+        if i % 3 == 0:
+            yield ("corr", "decrypt_ss_fast", [fl, ctx.rbytes(r.choice([16, 32, 32, 15, 0])), r.choice(PASS)])
+    for ident in (0, 1, 255, 256, 32767, 65535, 65536, 70000, -1):
+        ctx.label("shareset/salt-and-id-boundaries")
+        yield ("corr", "shareset_fields", [[[128, ident, 0, 0, 1, 1, 0, 1, 5]]])
+        yield ("corr", "decrypt_ss_fast", [[[128, ident, 1, 0, 1, 1, 0, 1, 5]], ctx.rbytes(16), b"pw"])
     # two-level sets (member thresholds > 1)
     for i in range(ctx.n(40, 1200)):
         nb = r.choice([16, 32])
